@@ -93,6 +93,8 @@ pub struct Stats {
     pub wall_s: f64,
     /// a few histories that were actually executed (deepest level first), with the outcome of their last call
     pub samples: Vec<(Vec<String>, String)>,
+    /// alphabet entries that were never enabled in any explored state (vacuity guard)
+    pub never_executed: Vec<String>,
 }
 
 impl Stats {
@@ -113,6 +115,7 @@ impl Stats {
         if self.samples.len() < 6 {
             self.samples.extend(o.samples.iter().take(2).cloned());
         }
+        self.never_executed.extend(o.never_executed.iter().cloned());
     }
 }
 
@@ -217,10 +220,14 @@ pub fn explore(
     stats.states = 1;
     let mut frontier = vec![Node { hist: vec![], enabled: enabled_mask(alphabet, &ex0) }];
     drop(ex0);
+    let mut executed: u128 = 0;
     for d in 1..=depth {
         if frontier.is_empty() {
             stats.max_depth_completed = depth;
             break;
+        }
+        for n in &frontier {
+            executed |= n.enabled;
         }
         let tasks: Vec<(usize, u16)> = frontier
             .iter()
@@ -326,5 +333,8 @@ pub fn explore(
         frontier = next;
     }
     stats.wall_s = t0.elapsed().as_secs_f64();
+    if viols.is_empty() {
+        stats.never_executed = alphabet.iter().enumerate().filter(|(i, _)| executed & (1 << i) == 0).map(|(_, o)| format!("{}: {o:?}", cfg.name)).collect();
+    }
     (stats, viols.into_values().collect())
 }
